@@ -790,6 +790,60 @@ theorem C18_carried_counterexample : ¬ C18_Full_carried := by
 example : noDisables [.send 0 true 6 true [.send 0 false 6 true [], .setEn 1 true true], .wsend 0 0 3 []] = true := by decide
 
 
+/-! ### The release of the reservation is safe even if a refusal came after nested sends
+
+In the code a refusing interface never involves its node (Gen: `rejectedMeansNodeNotInvolved`), so nothing is nested under a
+refused frame and the release is `load + s - s`.  The next theorem shows the repaired `transmit_frame` does not depend on that:
+on one link, with sends nested under accepted *and* refused frames alike, the load never decreases across a send, so
+subtracting the reservation can neither underflow nor break the bound. -/
+
+mutual
+/-- `send_frame` + repaired `transmit_frame` on one link, nested sends executed whatever the far interface answers. -/
+def sendRB (l : Link1) : Tx → Link1
+  | .mk s _ acc nested =>
+    if l.load + s ≤ l.bw then
+      let l2 := sendRBs { l with load := l.load + s } nested
+      if acc then l2 else { l2 with load := l2.load - s }
+    else l
+def sendRBs (l : Link1) : List Tx → Link1
+  | [] => l
+  | t :: ts => sendRBs (sendRB l t) ts
+end
+
+mutual
+theorem sendRB_inv (l : Link1) (t : Tx) (h : l.load ≤ l.bw) :
+    (sendRB l t).bw = l.bw ∧ l.load ≤ (sendRB l t).load ∧ (sendRB l t).load ≤ l.bw := by
+  cases t with
+  | mk s sa acc nested =>
+    unfold sendRB
+    by_cases hc : l.load + s ≤ l.bw
+    · simp only [hc, if_true]
+      obtain ⟨hb, hlo, hhi⟩ := sendRBs_inv { l with load := l.load + s } nested (by simpa using hc)
+      cases acc with
+      | true => simp at *; exact ⟨hb, by omega, hhi⟩
+      | false => simp at *; exact ⟨hb, by omega, by omega⟩
+    · simp [hc]; exact h
+theorem sendRBs_inv (l : Link1) (ts : List Tx) (h : l.load ≤ l.bw) :
+    (sendRBs l ts).bw = l.bw ∧ l.load ≤ (sendRBs l ts).load ∧ (sendRBs l ts).load ≤ l.bw := by
+  cases ts with
+  | nil => simp [sendRBs]; exact h
+  | cons t ts =>
+    unfold sendRBs
+    obtain ⟨hb, hlo, hhi⟩ := sendRB_inv l t h
+    obtain ⟨hb', hlo', hhi'⟩ := sendRBs_inv (sendRB l t) ts (by omega)
+    exact ⟨by omega, by omega, by omega⟩
+end
+
+/-- **Reserve / deliver / release keeps the bound for arbitrary nesting, also under refused frames.** -/
+theorem C18_release_safe_under_nesting (l : Link1) (ts : List Tx) (h : l.load ≤ l.bw) :
+    (sendRBs l ts).load ≤ (sendRBs l ts).bw ∧ l.load ≤ (sendRBs l ts).load := by
+  obtain ⟨hb, hlo, hhi⟩ := sendRBs_inv l ts h
+  exact ⟨by omega, hlo⟩
+
+/-- a refused frame (6) under which a reply (3) was nevertheless sent: 2 + 6 + 3 − 6 = 5 -/
+example : (sendRBs { bw := 12, load := 2 } [.mk 6 6 false [.mk 3 3 true []]]).load = 5 := by decide
+
+
 /-! ### What was wrong before the fixes (F-28), kept as checked statements -/
 
 /-- Before the fix the load was added after the nested sends: request 6 + reply 6 on a link of 10 ended at 12. -/
